@@ -233,6 +233,14 @@ def impl_pmat(c):
             return "U[:,:,%d] differs from expm(K*%g) by %g (sub-axis start %g, step %g)" % (i, t, err, substart, substep)
     if not numpy.array_equal(K, rm.data):
         return "rate matrix changed by get_PropagationMatrix (corrections=%d)" % corr
+    # the propagator itself is as it was: propagating with it afterwards gives what a fresh propagator gives
+    p0 = numpy.zeros(K.shape[0])
+    p0[0] = 1.0
+    fresh = PopulationPropagator(qr.TimeAxis(c["start0"], c["length"], c["step"]), rate_matrix=build_K(c)).propagate(p0)
+    used = prop.propagate(p0)
+    if not numpy.array_equal(numpy.asarray(fresh), numpy.asarray(used)):
+        return "propagate() after get_PropagationMatrix (corrections=%d) differs from a fresh propagator's by %g" % (
+            corr, float(numpy.max(numpy.abs(numpy.asarray(fresh) - numpy.asarray(used)))))
     U2 = prop.get_PropagationMatrix(ts)
     if not numpy.array_equal(U, U2):
         return "repeated get_PropagationMatrix on the same propagator differs by %g" % numpy.max(numpy.abs(U - U2))
